@@ -228,3 +228,14 @@ func VerifOffsetManagerState(m OffsetManager) (poms []VerifPOMState, hasBroker b
 	hasBroker = om.broker != nil
 	return
 }
+
+// VerifWarmup initialises package-level state that creates channels lazily (the shared zstd encoder and
+// decoder of klauspost/compress): it must happen outside any synctest bubble, otherwise the channels
+// belong to the first bubble and using them from a later one is a fatal runtime error.
+func VerifWarmup() {
+	for _, c := range []CompressionCodec{CompressionGZIP, CompressionSnappy, CompressionLZ4, CompressionZSTD} {
+		if b, err := compress(c, CompressionLevelDefault, []byte("warm-up payload warm-up payload")); err == nil {
+			_, _ = decompress(c, b)
+		}
+	}
+}
